@@ -35,7 +35,7 @@ class UnitD(Unit):
         G = Gen(repo)
         out.spec('#![feature(allocator_api)]\n#![feature(panic_internals)]\n#![allow(unused_imports)]\n' + HEAD)
         self._trusted = prelude(out, ['ax-rc', 'ax-string-eq', 'ax-str-ext', 'ax-display-ref', 'ax-hash-string', 'ax-extend', 'stdspec-contains', 'stdspec-extend', 'stdspec-assert-failed',
-                                      'stdspec-as-deref', 'stdspec-slice-iter', 'ax-slice-iter', 'stdspec-string-eq-str', 'stdspec-lowercase'])
+                                      'stdspec-as-deref', 'stdspec-option-combinators', 'stdspec-slice-iter', 'ax-slice-iter', 'stdspec-string-eq-str', 'stdspec-lowercase'])
         self._trusted += sections(out, 'dep_io.rs', ['io-write-ghost'])
         self._trusted += sections(out, 'dep_misc.rs', ['inflector', 'url', 'roxmltree-error'])
         out.spec(MOD_HEAD.replace('broadcast use crate::ax::display_ref;',
